@@ -7,7 +7,7 @@
     is outside the model (the property says "up to rounding"). *)
 From Coq Require Import Reals List QArith Qreals.
 From SV Require Import Rot.RotBase Gen.RotFormulas_gen Rot.RotAlgebra Rot.RotAliasProofs Rot.RotEuler Rot.RotEulerProofs
-  Rot.RotDispatch Rot.RotDispatchProofs Rot.RotMixedProofs Rot.RotInplace Gen.RotDispatch_gen Rot.RotGJ Rot.RotGJProofs Rot.RotGJTotal Rot.RotGJTotalProofs Rot.RotGJExample Rot.RotRoundEuler Rot.RotProperty
+  Rot.RotDispatch Rot.RotDispatchProofs Rot.RotMixedProofs Rot.RotInplace Rot.RotMethods Rot.RotMethodsProofs Gen.RotDispatch_gen Rot.RotGJ Rot.RotGJProofs Rot.RotGJTotal Rot.RotGJTotalProofs Rot.RotGJExample Rot.RotRoundEuler Rot.RotProperty
   Rot.RotReify Gen.RotReified_gen Rot.RotReifyProofs
   Rot.RotRound Rot.RotRoundProofs Rot.RotRoundFlocq Gen.RotRounded_gen Rot.RotRoundTied.
 Import ListNotations.
@@ -177,6 +177,14 @@ Theorem c04_inplace_census_sound : forall c, census_ok c = true -> forall m, In 
   (exists p, In p (im_paths m) /\ p <> PNotImplemented) /\
   forall p, In p (im_paths m) -> p = PNotImplemented \/ exists n, p = PSelf (S n).
 Proof. exact census_ok_sound. Qed.
+(** The in-place rotation METHODS (round 4; Gen/RotMethods_gen.v: the bodies of Vec.localise, Vec.transform(),
+    Angle.transform() and Vec.rotate executed symbolically on every run, the body of `with x.transform() as m:` being
+    `m @= rot`): for an accepted table the receiver ends up holding the pure form - `v @ angles + origin`, `v @ rot`,
+    `a @ rot` (through the Euler extraction), `v @ Angle(p, y, r)` - and the rotation argument keeps its value. *)
+Theorem c04_inplace_methods_sound : forall atan2 t, methods_ok t = true -> forall r, In r t ->
+  forall S Rt O rm, rot_mat (mr_rot r) Rt = Some rm -> method_spec atan2 (mr_meth r) S O rm <> None ->
+    mdenote atan2 S Rt O (mr_self r) = method_spec atan2 (mr_meth r) S O rm /\ mdenote atan2 S Rt O (mr_rot_final r) = Some Rt.
+Proof. exact methods_ok_sound. Qed.
 (** x @ Angle is x @ Matrix.from_angle(Angle). *)
 Theorem c04_angle_operand_is_from_angle : forall atan2 L a,
   spec atan2 L (VAng a) = spec atan2 L (VMat (from_angle_obj a)).
